@@ -62,7 +62,10 @@ def baseline(
 
         # Subtract baseline from all data samples in the record
         # (any additional zeros should be kept at zero)
-        d["data"][: d["length"]] = (-1 if flip else 1) * (d["data"][: d["length"]] - int(bl))
+        # floor, not int(): integrate and find_hits add baseline % 1 (also for a negative baseline)
+        d["data"][: d["length"]] = (-1 if flip else 1) * (
+            d["data"][: d["length"]] - int(np.floor(bl))
+        )
         d["baseline"] = bl
         d["baseline_rms"] = rms
 
